@@ -118,13 +118,15 @@ func runDKGWith[G algebra.PrimeGroupElement[G, S], S algebra.PrimeFieldElement[S
 	if cfg.proto != "gennaro" {
 		class = fmt.Sprintf("dkg=%s group=%s ac=%s n=%d two=%v disk=%v", cfg.proto, kit.name, spec.kind, cfg.n, cfg.two, cfg.diskFault)
 	}
-	if refusedByDesign(kit, spec) {
-		if _, err := kw.NewScheme(kit.sf(), spec.lib); err == nil {
-			return harness.Outcome{Violation: &harness.Violation{Class: "refusal-expected", Site: "kw", Detail: spec.desc + ": violates the documented hierarchical constraints but was accepted"}, Class: class}
+	probes := map[string]int{}
+	if spec.expectRefusal != "" {
+		if _, err := kw.NewScheme(kit.sf(), spec.lib); err != nil {
+			return harness.Outcome{Skipped: true, Class: class, Probes: map[string]int{"refused_interleaved_hierarchical_layout": 1}}
 		}
+		probes["accepted_layout_documented_as_unsupported"]++ // the oracle below judges the outcome
+	} else if refusedByDesign(kit, spec) {
 		return harness.Outcome{Skipped: true, Class: class, Probes: map[string]int{"refused_hierarchical_layout": 1}}
 	}
-	probes := map[string]int{}
 	shardSets := []map[sim.ID]*mpc.BaseShard[G, S]{}
 	var stats sim.Stats
 	var trace []string
@@ -254,9 +256,23 @@ func dkgWorkload(group string, quick, thorough int) harness.Workload {
 	return harness.Workload{Name: "dkg-" + group, Quick: quick, Thorough: thorough, Run: func(rc *harness.RunCtx) harness.Outcome { return runDKGGroup(rc, group) }}
 }
 
+// dkgEdgeWorkload: hierarchical layouts the library documents as unsupported
+// (ids not increasing by level) must be refused, or else must work.
+func dkgEdgeWorkload(quick, thorough int) harness.Workload {
+	return harness.Workload{Name: "dkg-hierarchical-edge-k256", Quick: quick, Thorough: thorough, Run: func(rc *harness.RunCtx) harness.Outcome {
+		rc2 := *rc
+		rc2.Params = map[string]string{"kind": "hierarchical+interleaved"}
+		for k, v := range rc.Params {
+			rc2.Params[k] = v
+		}
+		return runDKGGroup(&rc2, "k256")
+	}}
+}
+
 // C03Workloads lists the simulated-run families that decide C03.
 func C03Workloads() []harness.Workload {
 	return []harness.Workload{
+		dkgEdgeWorkload(400, 4000),
 		dkgWorkload("k256", 40, 6000),
 		dkgWorkload("p256", 24, 3000),
 		dkgWorkload("ed25519", 24, 3000),
